@@ -581,7 +581,13 @@ class C04(Property):
             'one injected OS failure at every call of eleven (thorough: 59) base saves where every errno of a 40-member family '
             '(thorough: every errno of the platform) is probed in a recorded run and each errno after which the save BEHAVES '
             'differently gets its own case, a second failure at every later call (first three bases; thorough: all), Ctrl-C '
-            '(KeyboardInterrupt) raised at every call of three saves; and (seeded) random write patterns / op sequences. For each case '
+            '(KeyboardInterrupt) raised at every call of three saves; the NAME of the part file (12 destination names x 15 part_file '
+            'arguments - absent, empty, the destination itself, plain names, paths - judged by the Lean model C04.partName, and whole saves '
+            'whose part_file names the destination); the WINDOWS branch (the current source executed as on Windows against stand-ins for '
+            'os.rename / ReplaceFile: flag grid, stale part, closing bodies, the primitives called directly); destinations that are SYMBOLIC '
+            'LINKS (to a file, to nothing) and a part name taken by a symbolic link to the destination (judged on the link-aware Lean model); '
+            'and (seeded) random write patterns / op sequences. After every real kill the directory listing and the hard-link identity of '
+            'part and destination are compared with the model, and a reader that opened the destination before the save reads it at the end. For each case '
             'the recorded event trace is judged by the Lean SafeTrace predicate and the save is re-run in a child process that '
             'is killed immediately before every recorded call (and after the last). Non-trivial = the trace contains a '
             'publishing event and at least one kill point on each side of it; distinct = distinct case.')
@@ -590,7 +596,10 @@ class C04(Property):
                    '(fsync makes the page cache durable; rename/link are atomic; directory operations reach the disk in order)',
                    'kill points are the recorded calls (os.*, file.write/flush/close); a death inside a call is '
                    'covered by the model only through the atomicity of the kernel operations',
-                   'POSIX branch of atomic_rename/replace',
+                   'POSIX branch of atomic_rename/replace for real; the Windows branch is executed from the current source against stand-ins written in '
+                   'the harness (os.rename never replaces: EEXIST; ReplaceFile fails without a destination, else is this machine\'s rename): that the real '
+                   'ReplaceFile is one atomic directory operation is assumed',
+                   'part_file arguments that are paths rather than file names are outside the documented use; they are only checked not to alias the destination',
                    'a body that closes or detaches the part file itself has taken the file away from the saver: refusing that save '
                    'with the ValueError of the closed file and an untouched destination is accepted (as is completing it correctly)',
                    'a second writer is simulated in the same process (a second saver entered while the first is inside its block), '
